@@ -87,6 +87,7 @@ def step : PSt → LEv → PSt
   | .req r, .handler site off len taken ctxIn ctxOut ret => handlerStep r site off len taken ctxIn ctxOut ret
   | .req r, .queued => if r.replied then .bad else .req { r with replied := true }
   | .req r, .completed _ ctx => if ctx = r.ctx then .idle else .bad
+  | .idle, .queued => .idle          -- MHD's own error reply to a request the application never saw
   | .idle, .invalidate => .idle
   | .idle, .freeCb _ => .idle
   | .req r, .freeCb _ => .req r
